@@ -1,3 +1,4 @@
+import PallasVerif.Proofs.P2PProtoTie
 import PallasVerif.Proofs.P2PErr
 /-!
 # C27 — Peer promotion keeps peer sets consistent and banned peers away
@@ -186,5 +187,10 @@ example : (run (St.init cfg0) hBan).map (fun s => (s.banned, s.out)) = some ([1]
 example : (run (St.init cfg0) [.includePeer 1, .includePeer 2, .includePeer 3, .housekeeping [3, 1, 2] [],
       .recv 3 [.ka (.response 7)]]).map (fun s => (s.cold, s.warm, s.banned)) = some ([2], [1], [3]) := by
   decide
+
+/-- the protocol machines used by the model are those of the sources (table regenerated on every run) -/
+theorem keepalive_machine_matches_source (s : KaSt) (m : KaMsg) :
+    (PallasVerif.Gen.FsmN2.keepalive.step (KaSt.cls s) (KaMsg.kind m)).next? = (s.apply m).map KaSt.cls :=
+  ka_matches_source s m
 
 end PallasVerif.Props.C27
